@@ -59,7 +59,7 @@ Fam(d) == IF d \in StrTypes THEN "str" ELSE IF d \in TupleTypes THEN "tuple" ELS
 Scalars == {"int", "int0", "negint", "float_i", "float_f", "true", "false", "str", "text", "s_int", "s_float",
             "s_bool", "s_date", "s_time", "s_datetime", "date", "time", "time_us", "datetime", "datetime_us",
             "tuple2", "tuple3", "bracketed", "dict",
-            "datetime_tz", "time_tz", "inf", "bigint", "s_int_ws", "s_float_exp"}
+            "datetime_tz", "time_tz", "inf", "bigint", "s_int_ws", "s_float_exp", "tuple2e", "tuple3e"}
 Empties == {"none", "empty", "elist", "edict"}
 Lists == {"list_int", "list_str", "list_mixed", "list_s_int", "list_tuple2"}
 Classes == Scalars \cup Empties \cup Lists
